@@ -1251,6 +1251,10 @@ coap_pdu_parse_opt_base(coap_pdu_t *pdu, uint32_t len) {
     if (len > 2)
       res = 0;
     break;
+  case COAP_OPTION_Q_BLOCK1:
+    if (len > 3)
+      res = 0;
+    break;
   case COAP_OPTION_LOCATION_QUERY:
     if (len > 255)
       res = 0;
@@ -1265,6 +1269,10 @@ coap_pdu_parse_opt_base(coap_pdu_t *pdu, uint32_t len) {
     break;
   case COAP_OPTION_SIZE2:
     if (len > 4)
+      res = 0;
+    break;
+  case COAP_OPTION_Q_BLOCK2:
+    if (len > 3)
       res = 0;
     break;
   case COAP_OPTION_PROXY_URI:
